@@ -32,6 +32,11 @@ def make_scratch(src_root, harness_override=None, features=None):
             shutil.copytree(p, os.path.join(d, item))
     for item in ('Cargo.toml', 'Cargo.lock'):
         shutil.copy(os.path.join(src_root, item), d)
+    if os.path.realpath(src_root) != os.path.realpath('/repo'):
+        # a tree other than /repo (seeded change, harmless edit): private target directory inside the scratch copy.  Concurrent runs on
+        # DIFFERENT trees sharing one target directory produced a false alarm (a harmless edit reported the failures of a seeded change
+        # that was being checked at the same time); runs on /repo itself share the persistent cache (identical sources).
+        open(os.path.join(d, '.private-target'), 'w').write('1')
     os.makedirs(os.path.join(d, '.cargo'), exist_ok=True)
     open(os.path.join(d, '.cargo', 'config.toml'), 'w').write('[net]\noffline = true\n')
     for src, h in ATTACH.items():
@@ -43,6 +48,10 @@ def make_scratch(src_root, harness_override=None, features=None):
             with open(sp, 'a') as f:
                 f.write(f'\n#[cfg(kani)] #[path = "{hp}"] mod verif_kani;\n')
     return d
+
+
+def target_dir(scratch):
+    return os.path.join(scratch, '.kani-target') if os.path.exists(os.path.join(scratch, '.private-target')) else os.path.join(CACHE, 'kani-target')
 
 
 def full_name(h):
@@ -109,7 +118,7 @@ import procgrp
 
 
 def run_kani(scratch, names, jobs, timeout, extra=None):
-    cmd = ['cargo', 'kani', '--target-dir', os.path.join(CACHE, 'kani-target'), '--output-format=terse', '--exact',
+    cmd = ['cargo', 'kani', '--target-dir', target_dir(scratch), '--output-format=terse', '--exact',
            '-j', str(jobs)]
     for n in names:
         cmd += ['--harness', n]
@@ -126,7 +135,7 @@ def playback(src_root, h, timeout=600, features=None):
     """Get Kani's concrete counterexample for harness h and replay it natively against the real code."""
     scratch = make_scratch(src_root)
     try:
-        cmd = ['cargo', 'kani', '--target-dir', os.path.join(CACHE, 'kani-target'), '--exact', '--harness', full_name(h),
+        cmd = ['cargo', 'kani', '--target-dir', target_dir(scratch), '--exact', '--harness', full_name(h),
                '-Z', 'concrete-playback', '--concrete-playback=print'] + list(h.get('extra', []))
         os.makedirs(os.path.join(scratch, '.tmp'), exist_ok=True)
         env = dict(os.environ, CARGO_NET_OFFLINE='true', TMPDIR=os.path.join(scratch, '.tmp'))
